@@ -145,10 +145,11 @@ FACTS = {"C01": ["DispatchMerge"], "C02": ["DispatchMerge"], "C03": ["Formats", 
          "C20": ["Formats", "StateTools"]}
 # translation-equivalence modules (BklProofs/Facts/Trans<Unit>.lean over the regenerated Generated/Trans/<Unit>.lean):
 # "what the Go source says now = what the model says", per property that rests on that source file
-TRANS = {"C01": ["TransMerge", "TransMatch", "TransUtil", "TransFilter"], "C02": ["TransMerge", "TransMatch"],
-         "C06": ["TransValidate", "TransFinalize"], "C07": ["TransValidate", "TransMerge"], "C09": ["TransFinalize"],
-         "C10": ["TransMatch", "TransMerge", "TransGet"], "C11": ["TransUtil", "TransFilter", "TransOutput"],
-         "C12": ["TransFilter", "TransRepeat"], "C13": ["TransRepeat", "TransGet"], "C14": ["TransEncode", "TransEncode2"], "C15": ["TransBkld"], "C16": ["TransBkli"],
+TRANS = {"C01": ["TransMerge", "TransMatch", "TransUtil", "TransFilter", "SourceC01"], "C02": ["TransMerge", "TransMatch", "SourceMatch"],
+         "C06": ["TransValidate", "TransFinalize", "SourceC06"], "C07": ["TransValidate", "TransMerge", "SourceC07"], "C09": ["TransFinalize"],
+         "C10": ["TransMatch", "TransMerge", "TransGet"], "C11": ["TransUtil", "TransFilter", "TransOutput", "SourceC11"],
+         "C12": ["TransFilter", "TransRepeat", "TransProcess2"], "C13": ["TransRepeat", "TransGet", "TransProcess2"],
+         "C14": ["TransEncode", "TransEncode2", "TransProcess2"], "C15": ["TransBkld"], "C16": ["TransBkli"],
          "C17": ["TransBklr", "TransMerge"], "C19": ["TransUtil", "TransMerge"]}
 for _p, _ms in TRANS.items():
     FACTS[_p] = FACTS.get(_p, []) + _ms
@@ -253,7 +254,10 @@ def proof_step(pid, extra_targets=()):
         fok, fout = build_lean(["BklProofs.Facts." + g])
         if not fok:
             errs = [l for l in fout.split("\n") if "error" in l][:10]
-            if g.startswith("Trans"):
+            if g.startswith("Source"):
+                broken.append({"obligation": f"source-level laws BklProofs.Facts.{g}: a property theorem composed with the translation equivalence "
+                                             f"no longer holds of the Lean translation of /repo's current source", "detail": ((facts or {}).get("_gotrans") or []) + errs})
+            elif g.startswith("Trans"):
                 broken.append({"obligation": f"translation equivalence BklProofs.Facts.{g}: the Lean translation of /repo's current source "
                                              f"(Generated/Trans/{g[5:]}.lean, harness/cmd/gotrans) is no longer proved equal to the model",
                                "detail": ((facts or {}).get("_gotrans") or []) + errs})
